@@ -30,3 +30,14 @@ Example C09_nonvacuous :
   /\ lookup "pynapple/core/base_class.py:_Base.count" unit_table = Some ([("bin_size", 1)], 0)%nat
   /\ lookup "pynapple/core/interval_set.py:IntervalSet.__init__" unit_table = Some ([("start", 1); ("end", 1)], 0)%nat.
 Proof. vm_compute. repeat split; try reflexivity. repeat constructor. Qed.
+
+(* ---- float layer: the three unit forms of an instant on the microsecond lattice within 1e5 s store the SAME
+        double, namely the correctly rounded (1000 k) / 1e9 (bit-level statement; Flocq) ---- *)
+From Coq Require Import ZArith PrimFloat.
+From Verif Require Import Model.FloatTime Proofs.FloatTimeProofs.
+Theorem C09_fmt_lattice : forall k : Z, (0 <= k <= 100000000000)%Z ->
+  fmt 2 (fz k) = canon_of k
+  /\ fmt 1 (Coq.Floats.PrimFloat.div (fz k) 1e3%float) = canon_of k
+  /\ fmt 0 (Coq.Floats.PrimFloat.div (fz k) 1e6%float) = canon_of k.
+Proof. exact fmt_lattice. Qed.
+Print Assumptions C09_fmt_lattice.
